@@ -111,7 +111,10 @@ let f _id vs =
            else Some (None, why)) in
     List.iter (fun rv ->
       (match as_list rv with
-      | [ot; oi; r; ft; fr; depth; limit; edges; outcome; users] ->
+      | ot :: oi :: r :: ft :: fr :: depth :: limit :: edges :: outcome :: users :: rest ->
+        (* mode 0: plain request; 1: one datastore read key fails (injected, non-cancellation error);
+           2: the reads of one object are delayed until the other reads are done (arrival order) *)
+        let mode = (match rest with [md] -> as_int md | _ -> 0) in
         let o = mk_obj (as_int ot) (as_int oi) in
         let rel = n_of_int (as_int r) in
         let ftype = n_of_int (as_int ft) and frel = n_of_int (as_int fr) in
@@ -120,7 +123,8 @@ let f _id vs =
         let where = Printf.sprintf "ListUsers(%s#r%d, filter t%d%s%s%s)" (obj_s o) (int_of_n rel) (as_int ft)
             (if as_int fr = 0 then "" else Printf.sprintf "#r%d" (as_int fr))
             (if limit > 0 then Printf.sprintf ", limit %d" limit else "")
-            (if as_int depth <> 25 then Printf.sprintf ", depth %d" (as_int depth) else "") in
+            (if as_int depth <> 25 then Printf.sprintf ", depth %d" (as_int depth) else "")
+            ^ (match mode with 1 -> " [one read fails]" | 2 -> " [one object's reads delayed]" | _ -> "") in
         let diff s = diffs := (where ^ " " ^ s) :: !diffs in
         let vres = validate m ftype frel o rel in
         dump_add [match vres with None -> 0 | Some VType -> 1 | Some VRel -> 2];
@@ -135,7 +139,13 @@ let f _id vs =
              let errs = lf.lf_errs and amb = lf.lf_amb in
              dump_add (List.length lf.lf_results ::
                        List.concat_map (fun res -> List.length res :: List.map subj_code res) lf.lf_results);
+             (* the result limit counts distinct keys of foundUsersUnique (NoRelationship ones included) *)
+             let ks = if limit > 0 then List.map int_of_nat (list_users_nkeys m cs store ftype frel (nat_of_int (as_int depth)) (edges = 0) o rel) else [] in
+             if limit > 0 then dump_add (List.length ks :: ks);
              dump_add [lerr_mask errs; lerr_mask amb; trig_mask lf.lf_trig; (if strat then 1 else 0)];
+             let kmax = List.fold_left Stdlib.max 0 ks and kmin = List.fold_left Stdlib.min Stdlib.max_int ks in
+             let lim_free = limit = 0 || limit > kmax in       (* the limit cannot apply: as without limit *)
+             let lim_exact = limit > 0 && limit = kmax in      (* reached with the last distinct key: exact set *)
              let cls = match outcome with 3 -> Some LCond | 4 -> Some LDepth | 5 -> Some LOther | _ -> None in
              let model_s = Printf.sprintf "model: results=[%s] errs=[%s] amb=[%s]"
                  (String.concat " | " (List.map set_s lf.lf_results))
@@ -144,16 +154,28 @@ let f _id vs =
                if List.mem LFuel errs || List.mem LFuel amb then (diff "model out of fuel"; false)
                else match cls with
                  | Some c ->
-                   let ok = if errs <> [] then List.mem c errs || List.mem c amb else List.mem c amb in
+                   let ok = mode = 1 || (if errs <> [] then List.mem c errs || List.mem c amb else List.mem c amb) in
                    if not ok then diff (Printf.sprintf "impl=%s %s" (out_s outcome) model_s); ok
                  | None ->
-                   if limit > 0 then begin
-                     let all = List.concat lf.lf_results in
-                     let ok = List.length users <= limit && List.for_all (fun u -> List.mem u all) users in
-                     if not ok then diff (Printf.sprintf "impl=%s %s" (set_s users) model_s); ok
-                   end else begin
+                   if lim_free then begin
                      let ok = errs = [] && List.exists (same_set users) lf.lf_results in
-                     if not ok then diff (Printf.sprintf "impl=%s %s" (set_s users) model_s); ok
+                     if not ok then begin
+                       diff (Printf.sprintf "impl=%s %s" (set_s users) model_s);
+                       if mode = 1 then props := (where ^ " a failed datastore read gave neither an error nor the exact answer: impl=" ^ set_s users ^ " " ^ model_s) :: !props
+                       else if limit > 0 then props := (Printf.sprintf "%s the limit exceeds the %d distinct results, the answer must be the exact set: impl=%s %s" where kmax (set_s users) model_s) :: !props
+                     end; ok
+                   end else if lim_exact then begin
+                     let ok = List.exists (same_set users) lf.lf_results in
+                     if not ok then begin
+                       diff (Printf.sprintf "impl=%s %s" (set_s users) model_s);
+                       props := (Printf.sprintf "%s the limit equals the %d distinct results, the answer must be the exact set: impl=%s %s" where kmax (set_s users) model_s) :: !props
+                     end; ok
+                   end else begin
+                     let all = List.concat lf.lf_results in
+                     let hmin = List.fold_left (fun a res -> Stdlib.min a (List.length res)) Stdlib.max_int lf.lf_results in
+                     let lower = if kmin >= limit then limit - (kmax - hmin) else 0 in
+                     let ok = List.length users <= limit && List.length users >= lower && List.for_all (fun u -> List.mem u all) users in
+                     if not ok then diff (Printf.sprintf "impl=%s (limit %d, distinct keys %d..%d) %s" (set_s users) limit kmin kmax model_s); ok
                    end in
              if outcome = 0 then begin
                let tg = lf.lf_trig in
@@ -210,7 +232,7 @@ let f _id vs =
                       | Some (Some fl, why) -> knowns := (fl ^ " " ^ where ^ " re-check of " ^ subj_s u ^ ": " ^ why) :: !knowns
                       | Some (None, why) -> props := (where ^ " re-check of " ^ subj_s u ^ ": " ^ why) :: !props)
                    end) users;
-                 if limit = 0 then
+                 if lim_free || (lim_exact && errs = []) then
                    List.iter (fun subj ->
                      if Hashtbl.mem chk (subj, o, rel) && not (List.mem subj users) then begin
                        let cand = (match subj with
@@ -219,7 +241,7 @@ let f _id vs =
                            | SWild _ -> false) in
                        if cand then begin
                          let (v, conv) = sem subj in
-                         dump_sem [(if conv then 1 else 0); b3_code (atomval subj v o rel)];
+                         if limit = 0 then dump_sem [(if conv then 1 else 0); b3_code (atomval subj v o rel)];
                          if conv then begin
                            let spec = atomval subj v o rel in
                            let covered = (match subj with SObj x -> List.mem (SWild x.otype) users | _ -> false) in
